@@ -380,6 +380,9 @@ type walker struct {
 	goShared map[*ast.Object]token.Pos
 	phase    string
 	depth    int
+	// locals that were assigned a shared location (one level of aliasing: `vars := m.vars`);
+	// indexing / selecting / dereferencing through them reaches that location
+	aliases map[*ast.Object]string
 }
 
 func (w *walker) pos(n ast.Node) string {
@@ -449,6 +452,50 @@ func (w *walker) isImport(id *ast.Ident) (string, bool) {
 	return path, ok
 }
 
+// baseOf is locOf for the operand of a selection / index / dereference: a local that
+// aliases a shared location stands for it.
+func (w *walker) baseOf(e ast.Expr) (string, bool, bool) {
+	if p, ok := e.(*ast.ParenExpr); ok {
+		return w.baseOf(p.X)
+	}
+	if id, ok := e.(*ast.Ident); ok && id.Obj != nil {
+		if l, ok := w.aliases[id.Obj]; ok {
+			if _, shared := w.classify(id); !shared {
+				return l, true, false
+			}
+		}
+	}
+	return w.locOf(e)
+}
+
+func (w *walker) noteAlias(lhs, rhs ast.Expr) {
+	id, ok := lhs.(*ast.Ident)
+	if !ok || id.Obj == nil || id.Name == "_" {
+		return
+	}
+	if _, shared := w.classify(id); shared {
+		return
+	}
+	for {
+		if p, ok := rhs.(*ast.ParenExpr); ok {
+			rhs = p.X
+			continue
+		}
+		break
+	}
+	switch rhs.(type) {
+	case *ast.Ident, *ast.SelectorExpr, *ast.IndexExpr, *ast.StarExpr:
+	default:
+		return
+	}
+	if loc, shared, ext := w.locOf(rhs); shared && !ext {
+		if w.aliases == nil {
+			w.aliases = map[*ast.Object]string{}
+		}
+		w.aliases[id.Obj] = loc
+	}
+}
+
 // locOf names the shared location an expression denotes, if any.
 // ext is true for a variable of another package (only writes to those are reported).
 func (w *walker) locOf(e ast.Expr) (loc string, shared bool, ext bool) {
@@ -472,15 +519,15 @@ func (w *walker) locOf(e ast.Expr) (loc string, shared bool, ext bool) {
 				}
 			}
 		}
-		if base, ok, ext := w.locOf(x.X); ok {
+		if base, ok, ext := w.baseOf(x.X); ok {
 			return base + "." + x.Sel.Name, true, ext
 		}
 	case *ast.IndexExpr:
-		return w.locOf(x.X)
+		return w.baseOf(x.X)
 	case *ast.SliceExpr:
-		return w.locOf(x.X)
+		return w.baseOf(x.X)
 	case *ast.StarExpr:
-		if base, ok, ext := w.locOf(x.X); ok {
+		if base, ok, ext := w.baseOf(x.X); ok {
 			return base + ".*", true, ext
 		}
 	}
@@ -998,6 +1045,11 @@ func (w *walker) stmt(s ast.Stmt) []frag {
 		return w.expr(x.X)
 	case *ast.AssignStmt:
 		r := w.exprs(x.Rhs)
+		if len(x.Lhs) == len(x.Rhs) && (x.Tok == token.DEFINE || x.Tok == token.ASSIGN) {
+			for i := range x.Lhs {
+				w.noteAlias(x.Lhs[i], x.Rhs[i])
+			}
+		}
 		if x.Tok == token.DEFINE {
 			return r
 		}
@@ -1013,6 +1065,11 @@ func (w *walker) stmt(s ast.Stmt) []frag {
 			for _, sp := range gd.Specs {
 				if vs, ok := sp.(*ast.ValueSpec); ok {
 					r = w.seq(r, w.exprs(vs.Values))
+					if len(vs.Names) == len(vs.Values) {
+						for i := range vs.Names {
+							w.noteAlias(vs.Names[i], vs.Values[i])
+						}
+					}
 				}
 			}
 		}
